@@ -427,26 +427,27 @@ func runC34Case(r *vlib.Run, c *c34Case, rng *vlib.RNG, st *c34Stats) (traceHash
 				keysNow, _ := parseKeys(c.exec.Keys(), "incr.c34Key")
 				need := closureOf(c.cl, maskOf(rr.roots)) &^ keysNow
 				c.mu.Lock()
-				var startedNow, panickedNow, panicked uint32
+				var startedNow, dropped, panicked uint32
 				for i, e := range c.execs {
 					if e.outcome == "panic" {
 						panicked |= 1 << uint(e.key)
 					}
+					if e.outcome == "panic" || e.outcome == "ctx" {
+						dropped |= 1 << uint(e.key) // executions whose result the executor may have discarded
+					}
 					if i >= execFrom {
 						startedNow |= 1 << uint(e.key)
-						if e.outcome == "panic" || e.outcome == "ctx" {
-							panickedNow |= 1 << uint(e.key)
-						}
 					}
 				}
 				c.mu.Unlock()
 				started := startedNow
+				reachNow := closureOf(c.cl, maskOf(rr.roots))
 				ctxt := "no query panicked anywhere in the history"
 				switch {
 				case need&^startedNow != 0 && panicked != 0:
 					ctxt = "it waits for a query that nobody executes (after a panic, a pending result was left behind by a task that did not get to run)"
-				case need&panickedNow != 0:
-					ctxt = "it waits for a pending result whose leader, in a concurrent Run, panicked or was cancelled by a panic and dropped the result without completing it"
+				case reachNow&dropped != 0:
+					ctxt = "it waits for a pending result whose leader, in another Run, panicked or was cancelled by a panic and dropped the result without completing it"
 				case panicked != 0:
 					ctxt = "a query panicked elsewhere in the history"
 				}
@@ -608,15 +609,15 @@ func runC34Case(r *vlib.Run, c *c34Case, rng *vlib.RNG, st *c34Stats) (traceHash
 					// Schedule-independent: a body returns nil only if every dependency result it saw
 					// had Fatal == nil; along a cycle not every query can have seen its successor's
 					// final result, and a pending result is only handed out with a cycle error.
-					if cyclic {
-						viol("cycle.missed", "a root whose dependency closure contains a cycle came back without an error", sw)
-						return
-					}
 					if bad := c.cl[root] & maskOf(step.Panic) &^ everOK; bad != 0 {
 						// Schedule-independent: these queries have never produced a value, and the
-						// root's value is a function of theirs.
+						// root's result is a function of theirs.
 						sw["panicking_dependencies_without_any_value"], sw["got"] = maskList(bad), res.Value
-						viol("panic.zero-value-served", "Run returned err=nil and a value for a root that depends on a query that only ever panicked: a caller in another Run saw the panicked query as a zero Result without error", sw)
+						viol("panic.zero-value-served", "Run returned err=nil and a value for a root that is or depends on a query that only ever panicked: a caller in another Run saw the panicked query as a zero Result without error", sw)
+						return
+					}
+					if cyclic {
+						viol("cycle.missed", "a root whose dependency closure contains a cycle came back without an error", sw)
 						return
 					}
 					if res.Value != c.ref[root] {
